@@ -1,5 +1,184 @@
+import NA.Spec.AclDev
 import NA.Core.IOUtil
-/-! Driver stub for C14 (not built yet): echoes its input. -/
+/-!
+Driver for the ACL line planners (serves C14, and the ACL streams of C01/C02/C08/C10).
+
+Input  (tab separated): backend(asa|ios)  U  a-lines  b-lines  ranges  impl-ops
+  line   : key:mkey:act:mask   (act ∈ p,d,r), lines separated by `|`
+  range  : lowA,highA,lowB,highB, separated by `|`
+  ops    : ASA `A pos key` `D pos key` `M dpos akey apos bkey`;
+           IOS `A num key` `D num` `M dnum anum key` `T key` `P key`; `X` = bad; separated by `|`; `-` = not given
+Output (tab separated key=value): valid norm model agree  and for impl/model scripts:
+  <who>.exec=ok|rejected@k  <who>.final=equal|blockequiv|differs  <who>.risk=none|k:p:pred
+-/
+namespace NA.Drv.C14
+open NA.Acl NA.IOUtil
+
+def parseLine (s : String) : Option Line :=
+  match s.splitOn ":" with
+  | [k, mk, a, m] => do
+    let k ← k.toNat?; let mk ← mk.toNat?; let m ← m.toNat?
+    match a with
+    | "p" => some { key := k, mkey := mk, permit := true, mask := m }
+    | "d" => some { key := k, mkey := mk, permit := false, mask := m }
+    | "r" => some { key := k, mkey := mk, permit := false, remark := true, mask := 0 }
+    | _ => none
+  | _ => none
+
+def parseRange (s : String) : Option Range :=
+  match (splitComma s).mapM String.toNat? with
+  | some [a, b, c, d] => some ⟨a, b, c, d⟩
+  | _ => none
+
+def findLine (ls : List Line) (k : Nat) : Line := (ls.find? (·.key == k)).getD { key := k, mkey := k, permit := false }
+
+def parseAsaOp (ls : List Line) (s : String) : Option Op :=
+  match s.splitOn " " with
+  | ["A", p, k] => do some (.add (← p.toNat?) (findLine ls (← k.toNat?)))
+  | ["D", p, k] => do some (.del (← p.toNat?) (findLine ls (← k.toNat?)))
+  | ["M", dp, ak, ap, bk] => do
+    some (.move (← dp.toNat?) (findLine ls (← ak.toNat?)) (← ap.toNat?) (findLine ls (← bk.toNat?)))
+  | ["X"] => some .bad
+  | _ => none
+
+def parseIosOp (ls : List Line) (s : String) : Option IOp :=
+  match s.splitOn " " with
+  | ["A", n, k] => do some (.add (← n.toNat?) (findLine ls (← k.toNat?)))
+  | ["D", n] => do some (.del (← n.toNat?))
+  | ["M", dn, an, k] => do some (.move (← dn.toNat?) (← an.toNat?) (findLine ls (← k.toNat?)))
+  | ["T", k] => do some (.delText (findLine ls (← k.toNat?)))
+  | ["P", k] => do some (.append (findLine ls (← k.toNat?)))
+  | ["X"] => some .bad
+  | _ => none
+
+def showAsaOp : Op → String
+  | .add p l => s!"A {p} {l.key}"
+  | .del p l => s!"D {p} {l.key}"
+  | .move dp a ap b => s!"M {dp} {a.key} {ap} {b.key}"
+  | .bad => "X"
+
+def showIosOp : IOp → String
+  | .add n l => s!"A {n} {l.key}"
+  | .del n => s!"D {n}"
+  | .move dn an l => s!"M {dn} {an} {l.key}"
+  | .delText l => s!"T {l.key}"
+  | .append l => s!"P {l.key}"
+  | .bad => "X"
+
+/-- Classify an unsafe step for the known-findings filter (F-C14 / F-C14b). -/
+def classifyAsa (b : List Line) (before after : List Line) (op : Op) (later : List Op) (p : Nat) : String :=
+  match op with
+  | .move dp _ ap _ =>
+    -- the line that now decides the packet
+    let hit := after.find? (·.hits p)
+    let pendingGone := match hit with
+      | some h => !(b.any (·.key == h.key)) || later.any (fun o => match o with
+          | .move _ a _ _ => a.key == h.key | .del _ a => a.key == h.key | _ => false)
+      | none => false
+    if dp < ap + 1 && dp ≤ ap && pendingGone then "move_down_across_pending_opposite_delete"
+    else if pendingGone then "move_across_pending_delete_other" else "move_other"
+  | .add .. => "add" | .del .. => "del" | .bad => "bad"
+  |> fun s => if before.length == 0 then s else s
+
+def classifyIos (b : List Line) (after : List Line) (op : IOp) (later : List IOp) (p : Nat)
+    (numOf : Line → Option Nat) : String :=
+  match op with
+  | .move dn an _ =>
+    let hit := after.find? (·.hits p)
+    let pendingGone := match hit with
+      | some h => !(b.any (·.key == h.key)) || later.any (fun o => match o with
+          | .move d _ _ => some d == numOf h | .del d => some d == numOf h | _ => false)
+      | none => false
+    if dn < an && pendingGone then "move_down_across_pending_opposite_delete"
+    else if pendingGone then "move_across_pending_delete_other" else "move_other"
+  | .delText _ | .append _ => "ios_no_common_line_delete_all_first"
+  | .add .. => "add" | .del .. => "del" | .bad => "bad"
+
+def oracleAsa (u : Nat) (a b : List Line) (ops : List Op) : String :=
+  -- execute step by step
+  let rec go (s : List Line) (ops : List Op) (k : Nat) (uns : Option String) : String × List Line × Option String :=
+    match ops with
+    | [] => ("ok", s, uns)
+    | op :: rest =>
+      match asaExec1 s op with
+      | none => (s!"rejected@{k}", s, uns)
+      | some s' =>
+        let uns := match uns with
+          | some x => some x
+          | none => match badPackets u a b s' with
+            | p :: _ => some s!"{k}:{p}:{classifyAsa b s s' op rest p}"
+            | [] => none
+        go s' rest (k + 1) uns
+  let (ex, fin, un) := go a ops 0 none
+  let final := if fin == b then "equal" else if blockEquiv fin b then "blockequiv" else "differs"
+  let keys (l : List Line) := joinComma (l.map fun x => toString x.key)
+  let states := match asaTrace a ops with
+    | some ss => ";".intercalate (ss.map keys)
+    | none => ""
+  s!"exec={ex}\tfinal={final}\trisk={un.getD "none"}\tfinalkeys={keys fin}\tstates={states}"
+
+def oracleIos (u : Nat) (a b : List Line) (ops : List IOp) : String :=
+  let s0 : IosAcl := iosReseq (a.map fun l => (0, l)) 10000 10000
+  let rec go (s : IosAcl) (ops : List IOp) (k : Nat) (uns : Option String) : String × IosAcl × Option String :=
+    match ops with
+    | [] => ("ok", s, uns)
+    | op :: rest =>
+      match iosExec1 s op with
+      | none => (s!"rejected@{k}", s, uns)
+      | some s' =>
+        let uns := match uns with
+          | some x => some x
+          | none => match badPackets u a b (iosLines s') with
+            | p :: _ => some s!"{k}:{p}:{classifyIos b (iosLines s') op rest p (fun l => (s'.find? (·.2 == l)).map (·.1))}"
+            | [] => none
+        go s' rest (k + 1) uns
+  let (ex, fin, un) := go s0 ops 0 none
+  let fl := iosLines fin
+  let final := if fl == b then "equal" else if blockEquiv fl b then "blockequiv" else "differs"
+  let keys (l : List Line) := joinComma (l.map fun x => toString x.key)
+  let states := match iosTrace s0 ops with
+    | some ss => ";".intercalate (ss.map fun s => keys (iosLines s))
+    | none => ""
+  s!"exec={ex}\tfinal={final}\trisk={un.getD "none"}\tfinalkeys={keys fl}\tstates={states}"
+
+def prefixFields (pre : String) (s : String) : String :=
+  "\t".intercalate ((s.splitOn "\t").map fun f => pre ++ f)
+
+def answer (line : String) : String :=
+  match splitTab line with
+  | [backend, u, al, bl, rl, il] =>
+    match u.toNat?, (splitBar al).mapM parseLine, (splitBar bl).mapM parseLine, (splitBar rl).mapM parseRange with
+    | some u, some a, some b, some rs =>
+      match cellsOf a b rs with
+      | none => "valid=0"
+      | some M =>
+        let norm := if normalised M then "1" else "0"
+        let all := a ++ b
+        if backend == "asa" then
+          let model := planASA M
+          let ms := joinBar (model.map showAsaOp)
+          let implOps := if il == "-" then none else (splitBar il).mapM (parseAsaOp all)
+          let agree := if il == "-" then "na" else if il == ms then "1" else "0"
+          let io := match implOps with
+            | some ops => prefixFields "impl." (oracleAsa u a b ops)
+            | none => "impl.exec=na"
+          s!"valid=1\tnorm={norm}\tmodel={ms}\tagree={agree}\t{io}\t{prefixFields "model." (oracleAsa u a b model)}"
+        else if backend == "ios" then
+          let model := planIOS M
+          let ms := joinBar (model.map showIosOp)
+          let implOps := if il == "-" then none else (splitBar il).mapM (parseIosOp all)
+          let agree := if il == "-" then "na" else if il == ms then "1" else "0"
+          let io := match implOps with
+            | some ops => prefixFields "impl." (oracleIos u a b ops)
+            | none => "impl.exec=na"
+          let rs := if (planIOS' M).2 then "1" else "0"
+          s!"valid=1\tnorm={norm}\tmodel={ms}\tagree={agree}\tremarkSuppr={rs}\t{io}\t{prefixFields "model." (oracleIos u a b model)}"
+        else "bad-backend"
+    | _, _, _, _ => "bad-input"
+  | _ => "bad-input"
+
+end NA.Drv.C14
+
 def main (_ : List String) : IO UInt32 := do
-  NA.IOUtil.eachLine id
+  NA.IOUtil.eachLine NA.Drv.C14.answer
   return 0
